@@ -331,6 +331,12 @@ def run_stdio(ctl: explorer.Ctl, cfg: Dict[str, Any]) -> Dict[str, Any]:
 # per-request streams of the stdio client (new_request_stream + send_json): the library's own demultiplexer
 # ---------------------------------------------------------------------------
 RUN_PR = "vf.checks.c18:run_per_request"
+# batch members that are not valid messages (each is dropped alone)
+STRAYS = [{"jsonrpc": "2.0", "id": "stale-17"}, {}, {"jsonrpc": "2.0", "id": "x", "result": 1, "error": {"code": 1, "message": "m"}},
+          [], 7, "text", None]
+# what an earlier child of the same client object left unterminated on its stdout before it went away
+TAILS = {"none": None, "text": b"server shutting down ...", "half-json": b'{"jsonrpc":"2.0","id":"a","resu',
+         "line+text": b'{"jsonrpc":"2.0","method":"notifications/message","params":{}}\nbye', "cr": b"\r", "open-bracket": b"["}
 PR_IDS = {"zero": 0, "empty": "", "str": "a", "int": 7, "digits": "7", "neg": -1}
 
 
@@ -381,15 +387,25 @@ def run_per_request(ctl: explorer.Ctl, cfg: Dict[str, Any]) -> Dict[str, Any]:
             return
         st["answered"] = True
         order = perms[ctl.choose(len(perms), "answer-order")]
-        grouping = ctl.choose(2, "grouping")
-        lines = [(json.dumps({"jsonrpc": "2.0", "id": ids[i], "result": res(i)}) + "\n").encode() for i in order]
+        grouping = ctl.choose(2 + len(STRAYS) + 1, "grouping")
+        answers = [{"jsonrpc": "2.0", "id": ids[i], "result": res(i)} for i in order]
+        lines = [(json.dumps(a) + "\n").encode() for a in answers]
         note = (json.dumps({"jsonrpc": "2.0", "method": "notifications/message", "params": {}}) + "\n").encode()
         if grouping == 0:
             proc.stdout.feed(note + b"".join(lines))
-        else:
+        elif grouping == 1:
             for ln in lines:
                 proc.stdout.feed(ln)
                 proc.stdout.feed(note)
+        elif grouping == 2:
+            # all answers in one JSON-RPC batch array (no version agreed: batches are accepted)
+            proc.stdout.feed((json.dumps(answers) + "\n").encode())
+        else:
+            # a batch array with a member that is no valid message in front of, and between, the answers
+            stray = STRAYS[grouping - 3]
+            members = [stray, answers[0], stray] + answers[1:]
+            st["stray"] = stray
+            proc.stdout.feed((json.dumps(members) + "\n").encode())
 
     async def caller(i, client):
         rs = client.new_request_stream(str(ids[i]))
@@ -403,9 +419,25 @@ def run_per_request(ctl: explorer.Ctl, cfg: Dict[str, Any]) -> Dict[str, Any]:
         except BaseException as e:  # noqa: BLE001
             results[i] = ("exc", type(e).__name__)
 
+    tail = TAILS[cfg.get("first_tail", "none")]
+    first = seams.FakeProcess()
+    procs = ([first] if tail is not None else []) + [proc]
+
     async def main():
-        with seams.patched_open_process(lambda cmd, kw: proc):
-            async with StdioClient(seams.stdio_params()) as client:
+        with seams.patched_open_process(lambda cmd, kw: procs.pop(0)):
+            client = StdioClient(seams.stdio_params())
+            if tail is not None:
+                # an earlier connection through the same object: the child's output ends in the middle of a line
+                q = seams.Quiescence(loop)
+                q.chain = idle
+                async with client:
+                    first.stdout.feed(tail)
+                    await q.settle()
+                    if cfg.get("first_dies"):
+                        first.exit(1)
+                        await q.settle()
+                loop.idle_hook = idle
+            async with client:
                 read, _ = client.get_streams()
                 await asyncio.gather(*[asyncio.ensure_future(caller(i, client)) for i in range(k)])
                 try:
@@ -434,6 +466,8 @@ def run_per_request(ctl: explorer.Ctl, cfg: Dict[str, Any]) -> Dict[str, Any]:
                          "msg": f"cfg={cfg}: caller {i} waiting on the request stream for id {ids[i]!r} ended with {kind}; "
                                 f"main stream saw {[m.get('id') for m in main_stream]}"})
     got_ids = [m.get("id") for m in main_stream if "method" not in m]
+    if isinstance(st.get("stray"), dict) and st["stray"].get("id") is not None:
+        got_ids = [g for g in got_ids if g != st["stray"]["id"]]  # whether an invalid member shows up there is not this property's business
     if sorted(map(repr, got_ids)) != sorted(map(repr, ids)):
         viol.append({"sig": {"class": "main-stream-mismatch", "part": "per-request"},
                      "msg": f"cfg={cfg}: responses on the main read stream {got_ids}, sent {ids}"})
@@ -648,6 +682,8 @@ def run(tier: str, only=None) -> core.Result:
     prcfgs = [{"ids": list(c)} for n in (2, 3) for c in _it.combinations(PR_IDS, n) if not ({"int", "digits"} <= set(c))]
     prcfgs += [{"ids": idl, "result": sh} for idl in (["str", "int"], ["zero", "empty", "neg"])
                for sh in ("list", "str", "num", "float", "true", "false", "zero", "empty-str", "empty-list", "empty-obj", "nested-list")]
+    prcfgs += [{"ids": idl, "first_tail": t, "first_dies": d} for idl in (["str", "int"], ["zero", "empty", "neg"])
+               for t in TAILS if t != "none" for d in (False, True)]
     if not only or "per-request" in only:
         out = explorer.explore(RUN_PR, prcfgs, fidelity=True)
         sched.absorb(res, "per-request-streams", RUN_PR, out, prcfgs, min_outcomes=1)
